@@ -526,6 +526,6 @@ var curRec *runRec
 
 var C17 = core.Check{
 	ID: "C17", Level: "model_checking", Fn: checkC17, Watchdog: 300 * time.Second,
-	Rule: "stateless exploration of the real engine (engine/engine.go rewritten mechanically at check time: channels, select, go -> controlled-scheduler shim) with 2 (quick) / 3 (thorough) concurrent clients plus a stopper; client programs drawn from 15 sequences over {Update ok, Update failing, Observe, Observe with an expression failing on the empty state, Observe whose onupdate errors at the 1st/2nd delivery, cancel, cancel twice, Hangup}; all unordered pairs (thorough: pairs x {updater, observer}); every schedule with <=2 (quick) / <=3 (thorough) preemptions - one less for scenarios with more than 3 client operations - runs to completion and is compared with the sequential specification (no deadlock, every call returns, final state = acknowledged updates in an order respecting real-time precedence, failed updates change nothing, each observer receives consecutive installed states from its subscription point, onclose at most once and exactly once after cancel / failure, nothing delivered after an onupdate error). non-trivial = execution with more than two scheduling points",
+	Rule:   "stateless exploration of the real engine (engine/engine.go rewritten mechanically at check time: channels, select, go -> controlled-scheduler shim) with 2 (quick) / 3 (thorough) concurrent clients plus a stopper; client programs drawn from 15 sequences over {Update ok, Update failing, Observe, Observe with an expression failing on the empty state, Observe whose onupdate errors at the 1st/2nd delivery, cancel, cancel twice, Hangup}; all unordered pairs (thorough: pairs x {updater, observer}); every schedule with <=2 (quick) / <=3 (thorough) preemptions - one less for scenarios with more than 3 client operations - runs to completion and is compared with the sequential specification (no deadlock, every call returns, final state = acknowledged updates in an order respecting real-time precedence, failed updates change nothing, each observer receives consecutive installed states from its subscription point, onclose at most once and exactly once after cancel / failure, nothing delivered after an onupdate error). non-trivial = execution with more than two scheduling points",
 	Assume: []string{"scheduling points are exactly the channel operations, select and goroutine starts of engine.go (the engine uses no other synchronisation)", "observer callbacks run on the engine goroutine, as in cmd/arrai/serve_*.go", "the gRPC/WebSocket transports are not run"},
 }
